@@ -123,7 +123,7 @@ for _pid, _only, _must in [
     ('C05', r'LIFECYCLE|LAUNCH-TWICE|RESTART-NO-LAUNCH|STALE-INSTANCE|PANIC|FATAL', ['ev:restarted', 'ev:zombie', 'ev:spawn-err:prelaunch']),
     ('C06', r'KILL-ONCE|CHILDREN-FIRST|NOT-RELEASED|HALF-STOPPED|JOB-SURVIVES-OWNER|PANIC|FATAL', ['ev:killed-event', 'ev:spawn-err:exists', 'ev:spawn-err:dead', 'killvs:kill-first', 'killvs:directive-first', 'killvs:dec1:kill-first', 'killvs:dec1:directive-first', 'killvs:dec2:directive-first']),
     ('C08', r'DECIDE-TWICE|SUPERVISION-WHILE-STOPPING|STAYS-PAUSED|HALF-STOPPED|STALE-INSTANCE|PANIC|FATAL', ['stash:dec1:hooks1', 'stash:dec2:hooks1', 'ev:decide:1', 'ev:decide:2', 'ev:decide:3', 'ev:decide:4', 'ev:decide:5', 'ev:decide:6', 'matrix:', 'escal:kindM1:depth1', 'escal:kindM2:depth1', 'escal:kindM2:depth2']),
-    ('C09', r'STAYS-PAUSED|HALF-STOPPED|NO-ANSWER|ZOMBIE-RUNS-USER-CODE|ZOMBIE-PAUSED|PANIC|FATAL', ['ev:restarted', 'ev:zombie', 'ev:decide:5', 'ev:decide:2', 'ev:decide:4', 'escal:kindM1:depth1', 'escal:kindM2:depth1', 'escal:kindM2:depth2', 'escal:dec5', 'escal:dec4', 'escal:dec2', 'killvs:kill-first', 'killvs:directive-first', 'killvs:dec1:kill-first', 'killvs:dec1:directive-first', 'killvs:dec2:directive-first', 'zombie-sibling:dec1', 'zombie-sibling:dec3', 'zombie-sibling:dec5', 'zombie-sibling:dec6']),
+    ('C09', r'STAYS-PAUSED|HALF-STOPPED|NO-ANSWER|ZOMBIE-RUNS-USER-CODE|ZOMBIE-PAUSED|PANIC|FATAL', ['ev:restarted', 'ev:zombie', 'ev:decide:5', 'ev:decide:2', 'ev:decide:4', 'escal:kindM1:depth1', 'escal:kindM2:depth1', 'escal:kindM2:depth2', 'escal:dec5', 'escal:dec4', 'escal:dec2', 'killvs:kill-first', 'killvs:directive-first', 'killvs:dec1:kill-first', 'killvs:dec1:directive-first', 'killvs:dec2:directive-first', 'stash:dec1:hooks8', 'stash:dec1:hooks32', 'zombie-sibling:dec1', 'zombie-sibling:dec3', 'zombie-sibling:dec5', 'zombie-sibling:dec6']),
     ('C19', r'ES-TABLES|EVENT-TWICE|EVENT-NOT-SUBSCRIBED|EVENT-MISSED|PANIC|FATAL', ['ev:es-sub', 'ev:es-unsub', 'ev:es-unsuball', 'ev:es-pub-with-subscribers']),
 ]:
     PROPS[_pid] = dict(
@@ -155,7 +155,7 @@ PROPS['C20'] = dict(
     modules=['Vivid.Props.C20', 'Vivid.Props.C19C20Global'],
     gens=[],
     engines=[dict(name='actorsys', only=r'JOB-SURVIVES-OWNER|JOB-KEY-COLLISION|CANCEL-UNKNOWN|PANIC|FATAL', must_hit=['ev:sched-once', 'ev:sched-loop', 'ev:cancel:ok', 'ev:cancel:notfound', 'ev:sched-clear', 'ev:cron-invalid', 'sched-scenario', 'sched-owner:running:kill', 'sched-owner:kill:kill', 'sched-owner:okilled:poison', 'sched-owner:killed:fail-stop', 'sched-owner:okilled:fail-restart']),
-             dict(name='schedrt', nomodel=True, must_hit=['rt:once', 'rt:loop-cancel', 'rt:owner-restarted', 'rt:owner-killed', 'rt:fired-then-clear', 'rt:fired-then-killed', 'rt:fired-then-restarted'])],
+             dict(name='schedrt', nomodel=True, must_hit=['rt:once', 'rt:loop-cancel', 'rt:owner-restarted', 'rt:owner-killed', 'rt:fired-then-clear', 'rt:fired-then-killed', 'rt:fired-then-restarted', 'rt:through-mailbox'])],
     rule=AS_RULE + ' Scheduler scenarios: Once / Loop / Cron(valid|invalid) / Cancel / Clear with shared and reused references, references and actor names containing ":", kills and supervised restarts in between (delays of an hour: registries compared, nothing fires). '
          'schedrt: seven real-time scenarios against go-quartz with a 40 ms unit and one-sided assertions (Once exactly once and not early, Loop stops after Cancel, nothing after Cancel / owner kill / owner restart, no dead letters, unknown Cancel, invalid cron), a failure is re-run twice in isolation before it is reported.',
     trusted_base=AS_TRUST + ['go-quartz (job queue, triggers, cron parser, 100 ms outdated threshold) and the wall clock: observed, not modelled beyond a keyed job table'],
@@ -182,8 +182,8 @@ PROPS['C04'] = dict(
     modules=['Vivid.Props.C04'],
     gens=[],
     engines=[dict(name='future', must_hit=['t:' + t for t in FUT_T] + ['variant:fixed']),
-             dict(name='askrt', nomodel=True, must_hit=['ask:result-window', 'ask:wait-window', 'ask:reply', 'ask:timeout', 'ask:late-reply', 'ask:close', 'ask:asker-dies-1-0', 'ask:asker-dies-3-0', 'ask:asker-dies-1-1', 'ask:asker-dies-1-3', 'ask:asker-dies-2-3', 'ask:asker-dies-3-1', 'ask:asker-restarts'])],
-    rule='askrt (monitor only, real system, real time; a failure is re-run twice before it is reported): Ask answered / timed out / answered late / closed by the caller / asker killed with 1, 3 and 2-of-5 Asks outstanding / asker stopped by its supervisor: own reply, prompt actor-dead error, outcome never changes afterwards, nothing left in the future registry. '
+             dict(name='askrt', nomodel=True, must_hit=['ask:result-window', 'ask:wait-window', 'ask:reply', 'ask:timeout', 'ask:late-reply', 'ask:close', 'ask:asker-dies-1-0', 'ask:asker-dies-3-0', 'ask:asker-dies-1-1', 'ask:asker-dies-1-3', 'ask:asker-dies-2-3', 'ask:asker-dies-3-1', 'ask:asker-restarts', 'ask:asker-dies-racing'])],
+    rule='askrt (monitor only, real system, real time; a failure is re-run twice before it is reported): Ask answered / timed out / answered late / closed by the caller / asker killed with 1, 3 and 2-of-5 Asks outstanding / asker stopped by its supervisor / asker killed while half of 3000 outstanding Asks are being answered from another goroutine: own reply, prompt actor-dead error, outcome never changes afterwards, nothing left in the future registry. '
          'future: the real future.Future under the fine baton (every statement of close() and PipeTo and the blocking receive of Result are scheduling points). Thread sets of completers (reply / error / timeout-Close), '
          'PipeTo callers (one forwarder each) and Result waiters: the finding\'s own replay, exhaustive DFS over six small sets (budgeted), seeded random schedules of 2-7 threads; after every step closed / done / registered forwarders / '
          'forwarders told (final vs unwritten result) / closer runs / program point of every goroutine are compared with the model. Every case is a distinct schedule.',
@@ -276,7 +276,7 @@ PROPS['C18'] = dict(
     modules=['Vivid.Props.C18', 'Vivid.Props.C18Converge'],
     gens=[],
     engines=[dict(name='gossip', must_hit=['scenario:join', 'scenario:idle-long', 'scenario:crash', 'scenario:restart', 'scenario:seed-crash', 'scenario:seed-restart', 'scenario:two-seeds',
-                                           'scenario:late-crash-messages', 'scenario:partition', 'scenario:partition-suspect', 'scenario:crash-suspect', 'scenario:random', 'rand:crash', 'rand:start', 'rand:recv']),
+                                           'scenario:late-crash-messages', 'scenario:partition', 'scenario:partition-suspect', 'scenario:crash-suspect', 'scenario:oneway-suspect', 'scenario:random', 'rand:crash', 'rand:start', 'rand:recv']),
              dict(name='gossiprt', nomodel=True, must_hit=['scenario:idle', 'scenario:crash', 'scenario:restart', 'scenario:seedcrash', 'scenario:seedrestart'])],
     rule='gossip: real cluster.NodeActor instances (2..7 nodes) behind a fake ActorContext; the harness is the network (a bag of captured gossip messages: any may be delivered, late, twice or never), the timers (ticks are ops, any phase) and the clock. '
          'Directed scenarios (join orders, one or two seeds incl. self-seeded islands, long idle, crash, restart on the same address, seed crash / restart, messages of a crashed node arriving late, partitions longer than the timeout then healed) and seeded '
